@@ -115,15 +115,15 @@ func genThresholds(e *emitter, maxN int) {
 	for n := 0; n <= maxN; n++ {
 		total := 1
 		for i := 0; i < n; i++ {
-			total *= 3
+			total *= 4
 		}
 		for v := 0; v < total; v++ {
-			// outcome per pipeline: 0 success, 1 filtered, 2 error
+			// outcome per pipeline: 0 success, 1 filtered by its filter, 2 error, 3 filtered by its formatter-filter
 			outs := make([]int, n)
 			x := v
 			for i := range outs {
-				outs[i] = x % 3
-				x /= 3
+				outs[i] = x % 4
+				x /= 4
 			}
 			idType := map[int]int{50: 2, 60: 3, 61: 3}
 			ids := []int{50, 60, 61}
@@ -135,7 +135,14 @@ func genThresholds(e *emitter, maxN int) {
 				if i%2 == 1 && n > 2 {
 					sink = 61
 				}
-				pipes = append(pipes, pdesc{Pid: i + 1, Ety: 1, IDs: []int{i + 1, 50, sink}})
+				fm := 50
+				if outs[i] == 3 {
+					// a formatter-filter of its own that drops the event: complete, but not a complete sink
+					fm = 40 + i
+					idType[fm] = 4
+					ids = append(ids, fm)
+				}
+				pipes = append(pipes, pdesc{Pid: i + 1, Ety: 1, IDs: []int{i + 1, fm, sink}})
 			}
 			hist, objOf := histFor(idType, ids, pipes)
 			beh := make([][]int, len(ids))
@@ -144,7 +151,10 @@ func genThresholds(e *emitter, maxN int) {
 			beh[objOf[60]-1] = []int{2, 0}
 			beh[objOf[61]-1] = []int{0, 2}
 			for i, o := range outs {
-				beh[objOf[i+1]-1] = []int{[]int{0, 2, 3}[o]}
+				beh[objOf[i+1]-1] = []int{[]int{0, 2, 3, 0}[o]}
+				if o == 3 {
+					beh[objOf[40+i]-1] = []int{2}
+				}
 			}
 			if n == 0 {
 				// a graph without pipelines exists once a threshold has been set
@@ -210,7 +220,7 @@ func fixedConfigs() []config {
 	{
 		idType := map[int]int{1: 2, 2: 4, 3: 2, 9: 3}
 		hist, o := histFor(idType, []int{1, 2, 3, 9}, []pdesc{{1, 1, []int{1, 9}}, {2, 1, []int{2, 9}}, {3, 1, []int{3, 9}}})
-		beh := [][]int{{0}, {3}, {1}, {0, 2, 0}}
+		beh := [][]int{{0}, {2}, {1}, {0, 2, 0}}
 		cs = append(cs, config{"c4-3x2-gated-roots", hist, beh, []int{o[1], o[2]}})
 	}
 	// c5: three pipelines sharing their filter, replacing events, one error at the sink
